@@ -17,7 +17,8 @@ RULE_TEXT = (
     "All LayeredArchitecture call sequences up to length 7 (quick) / 9 (thorough) over {layer(L1|L2), "
     "containing_modules('pkg.m1'|'pkg.m2'|['pkg.m1']|['pkg.m2']|['pkg.m1','pkg.m2']|[]), have_modules_with_names_matching(r), "
     "with_layer()}, explored depth-first and cut at the first rejected call; all LayerRule call sequences up to length 6 "
-    "(quick) / 7 (thorough) over the 15-call vocabulary cut at the first raising call; Hypothesis sequences of length "
+    "(quick) / 7 (thorough) over the 16-call vocabulary (the architecture has three layers with modules and a last layer L0 "
+    "that never received any; L0 can be named as subject or object) cut at the first raising call; Hypothesis sequences of length "
     "<= 12 over 3 layer and 3 module names. Oracle: LayerBuilderModel / LayerRuleModel say per call accept, reject or "
     "no-claim; the implementation must raise a non-assertion error at exactly the first rejected call and must not raise at "
     "an accepted call; accepted definitions must expose exactly the supplied layers and modules in order through "
@@ -134,7 +135,7 @@ def run_arch_seq(seq) -> dict:
 
 # ------------------------------------------------------------------- LayerRule
 
-RULE_OPS = [("based_on",), ("layers_that",), ("are_named", "L1"), ("are_named", "L2"), ("are_named", ["L1", "L2"]),
+RULE_OPS = [("based_on",), ("layers_that",), ("are_named", "L1"), ("are_named", "L2"), ("are_named", ["L1", "L2"]), ("are_named", "L0"),
             ("should",), ("should_only",), ("should_not",),
             ("access_layers_that",), ("be_accessed_by_layers_that",), ("access_layers_except_layers_that",),
             ("be_accessed_by_layers_except_layers_that",), ("access_any_layer",), ("be_accessed_by_any_layer",),
@@ -202,8 +203,9 @@ class LayerRuleModel:
 
 
 def _arch():
+    # L0 is opened last and never receives modules (nothing rejects that: no further layer is opened)
     return (LayeredArchitecture().layer("L1").containing_modules([M1]).layer("L2").containing_modules([M2])
-            .layer("L3").containing_modules([M3]))
+            .layer("L3").containing_modules([M3]).layer("L0"))
 
 
 _EV = None
